@@ -204,6 +204,14 @@ func (m *Machine) callVx(caller *frame, fn *ssa.Function, args []value) (value, 
 	case "vxEvents":
 		m.RecordEvents = m.concretize(args[0].(*Term)) != 0
 		return nil, true
+	case "vxRaceFree":
+		// decides, over the recorded event trace, whether two conflicting accesses can be adjacent
+		race := m.predictRace()
+		if race != "" {
+			m.recordViolation("data-race", race, m.model)
+			return st.ff, true
+		}
+		return st.tt, true
 	case "vxTrack":
 		m.track(args[0].([]value))
 		return nil, true
@@ -313,6 +321,7 @@ func (m *Machine) track(roots []value) {
 	m.frozen, m.frozenM = nil, nil
 	m.freeze(roots)
 	m.trackCell = m.frozen
+	m.trackMap = m.frozenM
 	m.frozen, m.frozenM, m.freezeOn = save, saveM, on
 }
 
